@@ -69,6 +69,9 @@ def _on_this(e):
     return b.get('k') == 'this'
 
 
+UNINIT = ('U',)          # a byte of freshly allocated storage nobody has written
+
+
 class Run:
     def __init__(self, prog, f, bufs, ptr_params=None, int_params=None, mem_ptrs=None, call_ptrs=None, growable=(), mems=None, depth=0, budget=None, methods=None, ignore=None, objects=False, externs=None):
         self.prog, self.f = prog, f
@@ -578,6 +581,8 @@ class Run:
                     return l[1]
                 if l[0] == 'recobj':
                     return ('R', l[1])
+                if l[0] == 'var' and isinstance(self.vars.get(l[1]), tuple) and self.vars[l[1]][:1] == ('R',):
+                    return self.vars[l[1]]          # address of a reference parameter bound to a modelled record
                 if l[0] == 'var':
                     if l[1] not in self.boxed:
                         name = ('V', l[1], id(self))
@@ -724,6 +729,23 @@ class Run:
         if fn in ('memcpy', 'memmove', 'memset') and not e.get('clsp'):
             dst = self.val(e['a'][0])
             n_ = self.val(e['a'][2])
+            if fn != 'memset' and dst == ('THIS',) and self.objects:
+                src = self.val(e['a'][1])
+                sz = strip(e['a'][2])
+                while sz.get('k') in ('cast', 'paren'):
+                    sz = strip(sz['e'])
+                if isinstance(src, tuple) and src[0] == 'R' and src[1] in self.recs and (sz.get('k') == 'sizeof' or sz.get('sizeof') is not None):
+                    # memcpy(this, &v, sizeof(v)): bitwise copy of a modelled record - an inline array is copied by content,
+                    # a container member becomes a second handle on the same storage
+                    for fld, v_ in self.recs[src[1]].items():
+                        if isinstance(v_, tuple) and v_[0] == 'P' and isinstance(v_[1], tuple) and v_[1][0] != 'O':
+                            mine = self.mems.get(fld)
+                            if not (isinstance(mine, tuple) and mine[0] == 'P' and len(self.bufs[mine[1]]) == len(self.bufs[v_[1]])):
+                                raise Unsupported('`%s`: inline member %s' % (pe(e), fld))
+                            self.bufs[mine[1]][:] = self.bufs[v_[1]]
+                        else:
+                            self.mems[fld] = v_
+                    return dst
             if not isinstance(dst, tuple) or dst[0] != 'P' or not isinstance(n_, int):
                 raise Unsupported('`%s`' % pe(e))
             es = self.elem_size.get(dst[1], 1)
@@ -837,6 +859,33 @@ class Run:
                 sv = self.val(so)
             if isinstance(sv, tuple) and sv[0] == 'SINK':
                 return self.sink_call(e, name, sv)
+        if self.objects and e.get('obj') is not None and e.get('clsp') == 'asl::StaticSpace' and name in ('construct', 'destroy'):
+            # in-place storage of a container member (`_s.construct(Array<char>(n))`): the member becomes a modelled object of n
+            # elements whose bytes are not initialised; construct() without an argument gives an empty container
+            so = strip_lv(e['obj'])
+            if so.get('k') == 'mem' and so.get('f') and _on_this(so):
+                fld, oid = so['f'], 'm:' + so['f']
+                if name == 'destroy':
+                    if not (isinstance(self.mems.get(fld), tuple) and self.mems[fld][:1] == ('P',)):
+                        raise Unsupported('`%s` of storage that holds no object' % pe(e))
+                    self.mems.pop(fld)
+                    return 0
+                n_ = 0
+                if e.get('a'):
+                    a0 = strip(e['a'][0])
+                    while a0.get('k') in ('temp', 'paren', 'cast'):
+                        a0 = strip(a0['e'])
+                    if not (a0.get('k') == 'construct' and a0.get('clsp') == 'asl::Array' and a0.get('sig') == '(int)' and len(a0.get('a', [])) == 1):
+                        raise Unsupported('`%s`' % pe(e))
+                    n_ = self.val(a0['a'][0])
+                    if not isinstance(n_, int):
+                        raise Unsupported('`%s`' % pe(e))
+                    if n_ < 0:
+                        raise OOB(('O', oid), n_, 0, e.get('l'))
+                self.bufs[('O', oid)] = [UNINIT] * n_
+                self.objlen[oid] = n_
+                self.mems[fld] = ('P', ('O', oid), 0)
+                return 0
         if e.get('obj') is not None and self.tmp_of(e) is not None:
             return self.tmp_call(e, name)
         if e.get('obj') is not None and self.obj_of(e) is not None:
